@@ -109,4 +109,138 @@ Definition spherical_axis (hypot : T -> T -> T) (r theta phi : T) (axis : list T
   | _ => Exit
   end.
 
+(** Angle(v1, v2) = acos(v1 * v2 / (v1.Norm() * v2.Norm()))   (operator*(Vector) is Dot: differing dimensions exit) *)
+Definition angle (v1 v2 : list T) : res T :=
+  rbind (dot v1 v2) (fun d => Ok (nacos Ops (d / (vnorm v1 * vnorm v2)))).
+
+(** ** Call histories of the argument objects.
+
+    A Vector / Matrix handed to Rotation_Matrix, Spherical_Coordinates, Angle or to a product has a past: it was
+    constructed, copied, assigned, changed in place (operator[] writes, +=, -=, Resize, Assign, Normalize) and asked
+    questions (Norm, Dot, Angle, earlier Rotation_Matrix / Spherical_Coordinates calls with the same object).  The
+    class has exactly two data members, [components] and [dimension] (= components.size(): the class invariant, a
+    theorem of C04), so an object IS its list of components, every const member and every copy leaves it alone and
+    every mutator is the function below.  [vstep] / [mstep] are one step of such a history, mirrored member by member;
+    the harness applies the same steps to one live C++ object and then passes that object. *)
+(** operator+ / operator+= (components[i] + v[i]) and operator- / operator-=: differing dimensions exit *)
+Definition vzip (f : T -> T -> T) (a b : list T) : res (list T) :=
+  if Nat.eqb (length a) (length b) then Ok (map (fun p => f (fst p) (snd p)) (combine a b)) else Exit.
+Definition vadd (a b : list T) : res (list T) := vzip (nadd Ops) a b.
+Definition vsub (a b : list T) : res (list T) := vzip (nsub Ops) a b.
+(** operator*(double s) and operator*(double s, const Vector&): components[i] * s;  operator/(double s): components[i] / s *)
+Definition vdivs (v : list T) (s : T) : list T := map (fun c => c / s) v.
+(** std::vector::resize(n): keeps the first n, value-initialises the rest *)
+Definition lresize {A} (d : A) (n : nat) (l : list A) : list A := firstn n l ++ repeat d (n - length l).
+(** v[i] = x through double& operator[] (i >= dimension exits) *)
+Definition vset (v : list T) (i : nat) (x : T) : res (list T) :=
+  if Nat.leb (length v) i then Exit else Ok (firstn i v ++ x :: skipn (S i) v).
+(** v[i] read through either operator[] *)
+Definition vread (v : list T) (i : nat) : res T :=
+  if Nat.leb (length v) i then Exit else Ok (nth0 Ops v i).
+
+Inductive vstep : Type :=
+| VSet (i : nat) (x : T)            (* v[i] = x *)
+| VAddAssign (w : list T)           (* v += w *)
+| VSubAssign (w : list T)           (* v -= w *)
+| VAddSelf                          (* v += v *)
+| VSubSelf                          (* v -= v *)
+| VPlus (w : list T)                (* v = v + w *)
+| VMinus (w : list T)               (* v = v - w *)
+| VTimes (s : T)                    (* v = v * s   and   v = s * v *)
+| VDivide (s : T)                   (* v = v / s *)
+| VResize (n : nat)                 (* v.Resize(n) *)
+| VAssign (n : nat) (x : T)         (* v.Assign(n, x) *)
+| VNormalize                        (* v.Normalize() *)
+| VNormalizedAssign                 (* v = v.Normalized() *)
+| VCrossAssign (w : list T)         (* v = v.Cross(w) *)
+| VDefault                          (* v = Vector() *)
+| VCopy                             (* the object is replaced by Vector(v) / assigned through other objects / to itself *)
+| VQNorm                            (* v.Norm(), v.Normalized(), v.Size(), operator<< : const, result dropped *)
+| VQDot (w : list T)                (* v.Dot(w), v * w, w * v, v == w *)
+| VQRead (i : nat)                  (* v[i] read, const or not *)
+| VQCross (w : list T)              (* v.Cross(w) dropped *)
+| VQAngle (w : list T)              (* Angle(v, w), Angle(w, v) dropped *)
+| VCallSpherical (r theta phi : T)  (* Spherical_Coordinates(r, theta, phi, v) dropped *)
+| VCallRotation (alpha : T) (dim : Z) (* Rotation_Matrix(alpha, dim, v) dropped *).
+
+Definition keep {A B} (v : A) (x : res B) : res A := rbind x (fun _ => Ok v).
+
+Definition vstep_apply (hypot : T -> T -> T) (v : list T) (s : vstep) : res (list T) :=
+  match s with
+  | VSet i x => vset v i x
+  | VAddAssign w | VPlus w => vadd v w
+  | VSubAssign w | VMinus w => vsub v w
+  | VAddSelf => vadd v v
+  | VSubSelf => vsub v v
+  | VTimes s => Ok (vscale_left s v)
+  | VDivide s => Ok (vdivs v s)
+  | VResize n => Ok (lresize zero n v)
+  | VAssign n x => Ok (repeat x n)
+  | VNormalize | VNormalizedAssign => Ok (vnormalized v)
+  | VCrossAssign w => cross v w
+  | VDefault => Ok [zero; zero; zero]
+  | VCopy | VQNorm => Ok v
+  | VQDot w => keep v (dot v w)
+  | VQRead i => keep v (vread v i)
+  | VQCross w => keep v (cross v w)
+  | VQAngle w => keep v (angle v w)
+  | VCallSpherical r theta phi => keep v (spherical_axis hypot r theta phi v)
+  | VCallRotation alpha dim => keep v (rotation_matrix alpha dim v)
+  end.
+
+(** the object after a whole history *)
+Fixpoint vhistory (hypot : T -> T -> T) (v : list T) (h : list vstep) : res (list T) :=
+  match h with
+  | [] => Ok v
+  | s :: h' => rbind (vstep_apply hypot v s) (fun v' => vhistory hypot v' h')
+  end.
+
+(** Matrix: components (rows of equal length), rows = components.size(), columns = components[0].size() for the
+    shapes with at least one row that the histories produce. *)
+Definition mrowsn (m : list (list T)) : nat := length m.
+Definition mcolsn (m : list (list T)) : nat := match m with [] => 0%nat | r :: _ => length r end.
+(** Plus / operator+ / operator+= (components[i][j] + M[i][j]), Minus / operator- / operator-=: other shapes exit *)
+Definition mzip (f : T -> T -> T) (a b : list (list T)) : res (list (list T)) :=
+  if Nat.eqb (mrowsn a) (mrowsn b) && Nat.eqb (mcolsn a) (mcolsn b)
+  then Ok (map (fun p => map (fun q => f (fst q) (snd q)) (combine (fst p) (snd p))) (combine a b)) else Exit.
+(** Transpose: result[j][i] = components[i][j] *)
+Definition mtranspose (m : list (list T)) : list (list T) := map (fun j => mcol m j) (seq 0 (mcolsn m)).
+(** Product(double s): s * components[i][j];  Division(double s): components[i][j] / s *)
+Definition mscale (s : T) (m : list (list T)) : list (list T) := map (map (fun c => s * c)) m.
+Definition mdivs (m : list (list T)) (s : T) : list (list T) := map (map (fun c => c / s)) m.
+(** Resize(row, col): components.resize(row); each row .resize(col) *)
+Definition mresize (row col : nat) (m : list (list T)) : list (list T) :=
+  map (lresize zero col) (lresize [] row m).
+
+Inductive mstep : Type :=
+| MAddAssign (z : list (list T))    (* M += Z *)
+| MSubAssign (z : list (list T))    (* M -= Z *)
+| MPlus (z : list (list T))         (* M = M + Z  (Plus) *)
+| MMinus (z : list (list T))        (* M = M - Z  (Minus) *)
+| MTransposeAssign                  (* M = M.Transpose() *)
+| MTimes (s : T)                    (* M = M * s  and  M = s * M *)
+| MDivide (s : T)                   (* M = M / s *)
+| MResize (row col : nat)           (* M.Resize(row, col) *)
+| MKeep                             (* copies, assignments, M[i][j] = M[i][j], every const member with its result dropped *).
+
+Definition mstep_apply (m : list (list T)) (s : mstep) : res (list (list T)) :=
+  match s with
+  | MAddAssign z | MPlus z => mzip (nadd Ops) m z
+  | MSubAssign z | MMinus z => mzip (nsub Ops) m z
+  | MTransposeAssign => Ok (mtranspose m)
+  | MTimes s => Ok (mscale s m)
+  | MDivide s => Ok (mdivs m s)
+  | MResize row col => Ok (mresize row col m)
+  | MKeep => Ok m
+  end.
+Fixpoint mhistory (m : list (list T)) (h : list mstep) : res (list (list T)) :=
+  match h with
+  | [] => Ok m
+  | s :: h' => rbind (mstep_apply m s) (fun m' => mhistory m' h')
+  end.
+
+(** operator*(const Vector& v_left, const Matrix& M): result[i] += v_left[j] * M[j][i] from 0.0 (v R = R^T v) *)
+Definition vecm (v : list T) (m : list (list T)) : res (list T) :=
+  if Nat.eqb (length v) (mrowsn m) then Ok (map (fun i => vdot v (mcol m i)) (seq 0 (mcolsn m))) else Exit.
+
 End C16.
